@@ -148,7 +148,11 @@ func BuildHTTPSched(creds credentials) calls.Caller {
 		log.Info("compression enabled")
 		cli.With(httpcli.RequestOptions(httpcli.Header("Accept-Encoding", "gzip")))
 	}
-	return httpsched.NewCaller(cli)
+	// AllowReconnection: httpsched takes any failed call for a master change and cancels its own event subscription; when
+	// another call is out at that moment, its result leaves the client "connected" without a stream, and from then on
+	// every SUBSCRIBE is refused locally ("already subscribed"): the scheduler would never register again. With this
+	// option a SUBSCRIBE issued in that state starts afresh.
+	return httpsched.NewCaller(cli, httpsched.AllowReconnection(true))
 }
 
 func BuildFrameworkInfo() *mesos.FrameworkInfo {
